@@ -35,13 +35,21 @@ FORMS = ["gopher", "gophers", "gplus", "gpluss", "gbang", "http", "https", "head
 EXTS = ["", ".txt", ".html", ".gif", ".jpg", ".pdf", ".c", ".xyz", ".tar", ".tar.gz", ".tgz", ".gz", ".txt.gz", ".bz2",
         ".txt.bz2", ".html.tal", ".tal", ".TXT", ".unknownext", ".a.b.c", ".gmi", ".mp3", ".zip.txt", ".txt.", ".md", ".pict", ".pct", ".rtf"]
 SIZES = [0, 1, 2, 100, 4095, 4096, 4097, 8191, 8192, 8193, 12288, 16383, 16384, 16385, 20479, 20480, 20481]
-CKINDS = ["text", "textblanks", "allbytes", "crlf", "badutf8", "zeros", "nonl"]
+CKINDS = ["text", "textblanks", "allbytes", "crlf", "badutf8", "zeros", "nonl", "looks-like"]
+# documents whose first bytes resemble what a content-sniffing handler looks for (an mbox separator, a ZIP signature, an
+# HTML title, a shebang, a gophermap line) without being one
+LOOKS_LIKE = [b"From the desk of the editor\nDear reader,\n", b"From \n", b"From me to you, with love\n\nbody\n",
+              b"From: a@b\nSubject: not a mailbox\n\n", b"PK\x03\x04 not a zip at all\n", b"PK\x05\x06", b"<html><title>not html",
+              b"#!/bin/sh\necho not executable\n", b"1menu\t/sel\thost\t70\n", b"\x1f\x8b\x08 not gzip", b"%PDF-1.4 text\n"]
 
 
 def _content(ckind, size, seed):
     rnd = random.Random(seed)
     if size == 0:
         return b""
+    if ckind == "looks-like":
+        head = LOOKS_LIKE[seed % len(LOOKS_LIKE)]
+        return (head + b"x" * size)[:max(size, len(head))]
     if ckind == "allbytes":
         base = bytes(range(256))
         return (base * (size // 256 + 1))[:size]
